@@ -141,6 +141,7 @@ def printStep : TStep → List TVal → Option (Bytes × List TVal)
   | .txt, .ss strs :: vs => some (sprintTxt strs, vs)
   | .txtPair, .s a :: .s b :: vs => some (sprintTxt [a, b], vs)
   | .txtFirst, .s a :: vs => some (sprintTxt [a], vs)
+  | .salt, .s t :: vs => some (if t.isEmpty then [45] else upperAscii t, vs)
   | .hexGroups d g sep up, .n v :: vs => some (printHexGroups d g sep up v, vs)
   | .octet, .s a :: vs => some (sprintTxtOctet a, vs)
   | .blank, vs => some ([32], vs)
@@ -268,6 +269,10 @@ def parsePlan (origin : Bytes) : List TStep → List Tok → List TVal → Optio
   | .txtPair :: _, ts, acc => (TxtParse.endingToTxtSlice ts).map (fun ss => acc ++ [.s (pairOfChunks ss).1, .s (pairOfChunks ss).2])
   | .txtFirst :: _, ts, acc => (TxtParse.endingToTxtSlice ts).map (fun ss => acc ++ [.s (ss.headD [])])
   | .octet :: _, ts, acc => (endingToOctet ts).map (fun s => acc ++ [.s s])
+  | .salt :: rest, ts, acc =>
+    let l := headTok ts
+    if l.err then none
+    else parsePlan origin rest ts.tail (acc ++ [.s (if l.token = [45] then [] else l.token)])
   | .euiTok groups :: rest, ts, acc =>
     let l := headTok ts
     if l.err then none
